@@ -14,6 +14,7 @@
 #include <cstring>
 #include <unistd.h>
 #include <map>
+#include <set>
 #include <stdexcept>
 #include <string>
 
@@ -55,7 +56,7 @@ static std::string typestring(const ak::FormPtr& f) {
 //  * known finding numpyform_format_lost (known_findings.jsonl): a NumpyForm whose format is not the canonical spelling of its
 //    primitive on this platform is re-read with the canonical one;
 //  * forms that describe no array of the library although the lenient reader builds them (an itemsize that is not the
-//    primitive's, a ListArray with starts and stops of different widths, masks/tags of another width than every class has; index widths without a class are recognised by the
+//    primitive's, a ListArray with starts and stops of different widths, masks/tags of another width than every class has, a record with two fields of the same name; index widths without a class are recognised by the
 //    "Unrecognized..." class name in the caller).
 static bool outside_scope(const ak::FormPtr& f) {
   if (f.get() == nullptr) return false;
@@ -75,6 +76,10 @@ static bool outside_scope(const ak::FormPtr& f) {
   if (ak::UnmaskedForm* r = dynamic_cast<ak::UnmaskedForm*>(f.get())) return outside_scope(r->content());
   if (ak::VirtualForm* r = dynamic_cast<ak::VirtualForm*>(f.get())) return outside_scope(r->form());
   if (ak::RecordForm* r = dynamic_cast<ak::RecordForm*>(f.get())) {
+    if (r->recordlookup().get() != nullptr) {                            // a record has one field per name
+      std::set<std::string> names(r->recordlookup()->begin(), r->recordlookup()->end());
+      if (names.size() != r->recordlookup()->size()) return true;
+    }
     for (auto c : r->contents()) if (outside_scope(c)) return true;
     return false;
   }
